@@ -125,7 +125,7 @@ func BuildJournal(source GtfsrtSource, startTime, endTime time.Time) *Journal {
 		newActiveTrips := map[string]bool{}
 		for _, tripUpdate := range feedMessage.Trips {
 			startTime := tripUpdate.ID.StartDate.Add(tripUpdate.ID.StartTime)
-			tripUID := fmt.Sprintf("%d%s", startTime.Unix(), tripUpdate.ID.ID[6:])
+			tripUID := fmt.Sprintf("%d%s", startTime.Unix(), tripIDSuffix(tripUpdate.ID.ID))
 			if existingTrip, ok := trips[tripUID]; ok {
 				existingTrip.update(&tripUpdate, createdAt)
 			} else {
@@ -168,6 +168,24 @@ func BuildJournal(source GtfsrtSource, startTime, endTime time.Time) *Journal {
 	return j
 }
 
+// tripIDSuffix returns the trip ID without its 6 character origin time prefix.
+//
+// Trip IDs that are too short to have the prefix are returned unchanged.
+func tripIDSuffix(tripID string) string {
+	if len(tripID) < 6 {
+		return tripID
+	}
+	return tripID[6:]
+}
+
+// stopIDOf returns the stop ID of the update, or the empty string if it has none.
+func stopIDOf(stopTimeUpdate *gtfs.StopTimeUpdate) string {
+	if stopTimeUpdate.StopID == nil {
+		return ""
+	}
+	return *stopTimeUpdate.StopID
+}
+
 func (trip *Trip) update(tripUpdate *gtfs.Trip, feedCreatedAt time.Time) {
 	if trip.IsAssigned && tripUpdate.Vehicle == nil {
 		// TODO: this seems to happen a lot, would be nice to figure out what's happening.
@@ -177,7 +195,7 @@ func (trip *Trip) update(tripUpdate *gtfs.Trip, feedCreatedAt time.Time) {
 	startTime := tripUpdate.ID.StartDate.Add(tripUpdate.ID.StartTime)
 	vehicle := tripUpdate.GetVehicle()
 
-	trip.TripUID = fmt.Sprintf("%d%s", startTime.Unix(), tripUpdate.ID.ID[6:])
+	trip.TripUID = fmt.Sprintf("%d%s", startTime.Unix(), tripIDSuffix(tripUpdate.ID.ID))
 	trip.TripID = tripUpdate.ID.ID
 	trip.RouteID = tripUpdate.ID.RouteID
 	trip.DirectionID = tripUpdate.ID.DirectionID
@@ -248,7 +266,7 @@ func createPartition(stopTimes []StopTime, updates []gtfs.StopTimeUpdate) partit
 	}
 	var p partition
 
-	firstUpdatedStopID := *updates[0].StopID
+	firstUpdatedStopID := stopIDOf(&updates[0])
 	firstUpdatedStopTimeIndex := 0
 	for i, stopTime := range stopTimes {
 		if stopTime.StopID == firstUpdatedStopID {
@@ -265,7 +283,7 @@ func createPartition(stopTimes []StopTime, updates []gtfs.StopTimeUpdate) partit
 		}
 		stopTime := &stopTimes[firstUpdatedStopTimeIndex+i]
 		update := &updates[updateIndex]
-		if stopTime.StopID != *update.StopID {
+		if stopTime.StopID != stopIDOf(update) {
 			break
 		}
 		p.updated = append(p.updated, updated{
@@ -281,7 +299,7 @@ func createPartition(stopTimes []StopTime, updates []gtfs.StopTimeUpdate) partit
 }
 
 func (stopTime *StopTime) update(stopTimeUpdate *gtfs.StopTimeUpdate, feedCreatedAt time.Time) {
-	stopTime.StopID = *stopTimeUpdate.StopID
+	stopTime.StopID = stopIDOf(stopTimeUpdate)
 	stopTime.ArrivalTime = stopTimeUpdate.GetArrival().Time
 	stopTime.DepartureTime = stopTimeUpdate.GetDeparture().Time
 	stopTime.Track = stopTimeUpdate.NyctTrack
